@@ -49,3 +49,753 @@ Proof.
   intros H1 H2 rest. cbn [app]. rewrite !contains_cons. cbn [head_is].
   apply Z.eqb_neq in H1, H2. rewrite H1, H2. rewrite andb_false_r. reflexivity.
 Qed.
+
+Lemma transparent_concat us : Forall transparent us -> transparent (concat us).
+Proof.
+  induction 1 as [|u us Hu _ IH]; cbn [concat]; [apply transparent_nil|].
+  now apply transparent_app.
+Qed.
+
+Lemma transparent_nocsi x : transparent x -> contains CSI x = false.
+Proof. intros H. rewrite <- (app_nil_r x), H. reflexivity. Qed.
+
+Lemma contains_mid a : forall r, contains CSI (a ++ CSI ++ r) = true.
+Proof.
+  induction a as [|x a IH]; intros r.
+  - reflexivity.
+  - cbn [app]. rewrite contains_cons, IH. apply orb_true_r.
+Qed.
+
+Lemma nocsi_prefix s : contains CSI s = false -> forall q, prefix q s -> more_not_csi q = true.
+Proof.
+  intros Hs q [r ->]. unfold more_not_csi. destruct (ends_with CSI q) eqn:E; [|reflexivity].
+  apply ends_with_iff in E as [p' ->]. rewrite <- app_assoc, contains_mid in Hs. discriminate.
+Qed.
+
+Lemma strict_prefix_snoc {A} (q x : list A) (a b : A) :
+  strict_prefix q (x ++ [a; b]) -> prefix q (x ++ [a]).
+Proof.
+  intros [r [Hr E]]. destruct (exists_last Hr) as (r' & z & ->).
+  exists r'. replace (x ++ [a; b]) with ((x ++ [a]) ++ [b]) in E by now rewrite <- app_assoc.
+  rewrite app_assoc in E. apply app_inj_tail in E as [E _]. exact E.
+Qed.
+
+(** ** printed well-formed replies are transparent *)
+
+Lemma digit_not_esc b : is_digit b = true -> not_esc b = true.
+Proof.
+  unfold not_esc. destruct (Z.eqb_spec b 27) as [->|]; [vm_compute; discriminate|reflexivity].
+Qed.
+Lemma hex_not_esc b : is_hex b = true -> not_esc b = true.
+Proof.
+  unfold not_esc. destruct (Z.eqb_spec b 27) as [->|]; [vm_compute; discriminate|reflexivity].
+Qed.
+Lemma word_not_esc b : is_word b = true -> not_esc b = true.
+Proof.
+  unfold not_esc. destruct (Z.eqb_spec b 27) as [->|]; [vm_compute; discriminate|reflexivity].
+Qed.
+Lemma ver_not_esc b : ver_char b = true -> not_esc b = true.
+Proof. unfold ver_char, not_esc. intros H. now apply andb_true_iff in H as [_ H]. Qed.
+
+Lemma transparent_terminator bel : transparent (terminator bel).
+Proof.
+  destruct bel; cbn.
+  - now apply transparent_noesc.
+  - apply transparent_esc; discriminate.
+Qed.
+
+Lemma transparent_print_rgb n r : wf_digits n = true -> wf_rgb r = true -> transparent (print_rgb n r).
+Proof.
+  intros Hn Hr. apply wf_digits_facts in Hn as [_ Hn].
+  apply wf_rgb_facts in Hr as ((_ & Hr) & (_ & Hg) & (_ & Hb)).
+  unfold print_rgb. repeat apply transparent_app.
+  - apply transparent_esc; discriminate.
+  - apply transparent_noesc. eapply forallb_impl; [|exact Hn]. apply digit_not_esc.
+  - now apply transparent_noesc.
+  - apply transparent_noesc. eapply forallb_impl; [|exact Hr]. apply hex_not_esc.
+  - now apply transparent_noesc.
+  - apply transparent_noesc. eapply forallb_impl; [|exact Hg]. apply hex_not_esc.
+  - now apply transparent_noesc.
+  - apply transparent_noesc. eapply forallb_impl; [|exact Hb]. apply hex_not_esc.
+  - apply transparent_terminator.
+Qed.
+
+Lemma transparent_print_xtv x : wf_xtv x = true -> transparent (print_xtv x).
+Proof.
+  unfold wf_xtv. intros H. apply andb_true_iff in H as [H Hv]. apply andb_true_iff in H as [H _].
+  apply andb_true_iff in H as [_ Hn].
+  unfold print_xtv. repeat apply transparent_app.
+  - apply transparent_esc; discriminate.
+  - now apply transparent_noesc.
+  - apply transparent_noesc. eapply forallb_impl; [|exact Hn]. apply word_not_esc.
+  - destruct (x_open x); now apply transparent_noesc.
+  - apply transparent_noesc. eapply forallb_impl; [|exact Hv]. apply ver_not_esc.
+  - destruct (x_close x); now apply transparent_noesc.
+  - apply transparent_terminator.
+Qed.
+
+(** ** the schedule of a profile's terminal *)
+
+Lemma zip_units_snd us : forall ds, map snd (zip_units ds us) = us.
+Proof. induction us as [|u us IH]; intros ds; cbn; [reflexivity|]. now rewrite IH. Qed.
+
+Lemma split_last_unit (s : list (Z * list byte)) us0 l :
+  map snd s = us0 ++ [l] -> exists pre t, s = pre ++ [(t, l)] /\ map snd pre = us0.
+Proof.
+  induction s as [|a s' _] using rev_ind; intros H.
+  - cbn in H. now apply app_cons_not_nil in H.
+  - rewrite map_app in H. cbn in H. apply app_inj_tail in H as [H1 H2].
+    exists s', (fst a). split; [|exact H1]. destruct a; cbn in *; now subst.
+Qed.
+
+Section TwoPhase.
+Variable cost : nat -> Z.
+Variable c : Z.
+Hypothesis cost_bounded : forall i, 0 <= cost i <= c.
+Variable cfg : config.
+Hypothesis Hen : enabled cfg = true.
+Hypothesis Hto : 0 < qtimeout cfg.
+Variable term : terminal.
+
+(** no reply at all to this request *)
+Lemma two_phase_no_reply request st : term request = [] -> pend st = [] ->
+  exists st', two_phase cost cfg term request st = (Some [], st') /\ pend st' = [] /\
+              written st' = written st ++ [request] /\
+              now st + qtimeout cfg <= now st' <= now st + qtimeout cfg + 3 * c.
+Proof.
+  intros Ht Hp. unfold two_phase.
+  destruct (query_silent cost c cost_bounded cfg term Hen more_not_csi request st)
+    as (st1 & E & Hp1 & Hw1 & Hn1); auto; [rewrite Hp; constructor|].
+  rewrite E, Hen. unfold drain_tty, drain. rewrite Hp1, Hp.
+  cbn [length drain_loop arrived take_while snd].
+  eexists; split; [reflexivity|]. cbn [pend written now]. pose proof (cost_bounded (tick st1)).
+  split; [reflexivity|]. split; [exact Hw1|]. lia.
+Qed.
+
+(** The replies to [request] are the transparent units [us0], followed (or not) by the reply
+    to DA1: the response is everything up to and including the CSI of the DA1 reply (all of
+    it when DA1 is not answered), and nothing is left unread. *)
+Lemma two_phase_units request us0 (tail : option (list byte)) st D :
+  map snd (term request) = us0 ++ match tail with Some ps => [print_da1 ps] | None => [] end ->
+  Forall transparent us0 ->
+  pend st = [] -> timely c cfg term request D ->
+  exists st',
+    two_phase cost cfg term request st
+    = (Some (concat us0 ++ match tail with Some _ => CSI | None => [] end), st') /\
+    pend st' = [] /\ written st' = written st ++ [request] /\
+    now st <= now st' <= now st + qtimeout cfg + c * (Z.of_nat (length (stream (term request))) + 4).
+Proof.
+  intros Hmap Htr Hp Ht.
+  pose proof (c_nonneg cost c cost_bounded) as Hc.
+  destruct tail as [ps|].
+  - destruct (split_last_unit _ _ _ Hmap) as (pre & t & E & Hpre).
+    destruct (two_phase_drains cost c cost_bounded cfg term Hen request st D pre t (print_da1 ps) Hp Ht E)
+      as (st' & E2 & R).
+    { apply nocsi_prefix. unfold stream. rewrite Hpre. apply transparent_nocsi. now apply transparent_concat. }
+    exists st'. split; [|exact R]. rewrite E2. do 2 f_equal.
+    assert (Hs : stream (term request) = (concat us0 ++ CSI) ++ ([63] ++ ps ++ [99])).
+    { unfold stream. rewrite Hmap, concat_app. cbn [concat]. rewrite app_nil_r. unfold print_da1.
+      now rewrite <- !app_assoc. }
+    rewrite Hs, first_done_stop; [reflexivity| |].
+    + intros q Hq. apply strict_prefix_snoc in Hq. revert q Hq. apply nocsi_prefix.
+      pose proof (transparent_concat us0 Htr [27]) as Hc0. rewrite Hc0. reflexivity.
+    + unfold more_not_csi. apply negb_false_iff. apply ends_with_iff. now exists (concat us0).
+  - rewrite app_nil_r in Hmap.
+    induction us0 as [|u0 us0' _] using rev_ind.
+    + apply map_eq_nil in Hmap.
+      destruct (two_phase_no_reply request st Hmap Hp) as (st' & E & Hp' & Hw & Hn).
+      exists st'. rewrite E. cbn [concat app]. repeat split; auto; try lia.
+    + destruct (split_last_unit _ _ _ Hmap) as (pre & t & E & Hpre).
+      apply Forall_app in Htr as [Htr0 Htr1].
+      destruct (two_phase_drains cost c cost_bounded cfg term Hen request st D pre t u0 Hp Ht E)
+        as (st' & E2 & R).
+      { apply nocsi_prefix. unfold stream. rewrite Hpre. apply transparent_nocsi. now apply transparent_concat. }
+      exists st'. split; [|exact R]. rewrite E2. do 2 f_equal. rewrite app_nil_r.
+      assert (Hs : stream (term request) = concat (us0' ++ [u0])) by (unfold stream; now rewrite Hmap).
+      rewrite Hs. apply first_done_all.
+      intros q [r [_ Hq]]. apply (nocsi_prefix (concat (us0' ++ [u0]))).
+      * apply transparent_nocsi, transparent_concat. apply Forall_app. now split.
+      * now exists r.
+Qed.
+
+End TwoPhase.
+
+(** ** the parsers on what the two-phase reader hands over *)
+
+Lemma colors_uniform r : colors_of_response (Some r) = fold_colors (findall_rgb r 0) None None.
+Proof. destruct r; reflexivity. Qed.
+
+Lemma nv_uniform cfg r :
+  name_version_of_response cfg (Some r)
+  = let (name, version) := match parse_xtversion r with
+                           | Some (n, v) => (Some n, Some v)
+                           | None => (env_name cfg, env_version cfg)
+                           end in (option_map lower name, version).
+Proof. destruct r; reflexivity. Qed.
+
+Definition da1_tail (p : profile) : option (list byte) := wf_of (p_da1 p).
+Definition csi_tail (p : profile) : list byte := match da1_tail p with Some _ => CSI | None => [] end.
+
+Lemma csi_tail_cases p : csi_tail p = [] \/ csi_tail p = CSI.
+Proof. unfold csi_tail. destruct (da1_tail p); auto. Qed.
+
+Lemma wf_profile_parts p : wf_profile p = true ->
+  wf_reply wf_xtv (p_xtv p) = true /\ wf_reply wf_rgb (p_fg p) = true /\ wf_reply wf_rgb (p_bg p) = true /\
+  wf_reply wf_winops (p_cell p) = true /\ wf_reply wf_winops (p_area p) = true /\
+  wf_reply wf_kitty (p_kitty p) = true /\ wf_reply wf_da1 (p_da1 p) = true.
+Proof. unfold wf_profile. rewrite !andb_true_iff. tauto. Qed.
+
+Lemma answer_da1 p : wf_reply wf_da1 (p_da1 p) = true ->
+  answer p QDa1 = match da1_tail p with Some ps => [print_da1 ps] | None => [] end.
+Proof. unfold answer, da1_tail, opt_unit. destruct (p_da1 p) as [[ps|raw]|]; cbn; auto; discriminate. Qed.
+
+(** colours: what is parsed from the replies of a well-formed profile *)
+Lemma colors_of_profile p tl : wf_reply wf_rgb (p_fg p) = true -> wf_reply wf_rgb (p_bg p) = true ->
+  tl = [] \/ tl = CSI ->
+  colors_of_response (Some (concat (answer p QFg ++ answer p QBg) ++ tl))
+  = Some (option_map exp_rgb (wf_of (p_fg p)), option_map exp_rgb (wf_of (p_bg p))).
+Proof.
+  intros Hf Hb Htl. rewrite colors_uniform.
+  assert (Ht : findall_rgb tl 0 = []) by (destruct Htl as [-> | ->]; reflexivity).
+  unfold answer, opt_unit.
+  destruct (p_fg p) as [[fg|raw]|]; try discriminate;
+    destruct (p_bg p) as [[bg|raw]|]; try discriminate; cbn [wf_reply wf_of option_map print app concat] in *.
+  - rewrite app_nil_r, <- app_assoc.
+    rewrite findall_print by auto. rewrite findall_print by auto. rewrite Ht.
+    cbn [fold_colors]. replace (beq (bs "10") (bs "10")) with true by reflexivity.
+    rewrite x_parse_color_wf by exact Hf.
+    replace (beq (bs "11") (bs "10")) with false by reflexivity.
+    replace (beq (bs "11") (bs "11")) with true by reflexivity.
+    rewrite x_parse_color_wf by exact Hb. reflexivity.
+  - rewrite app_nil_r. rewrite findall_print by auto. rewrite Ht.
+    cbn [fold_colors]. replace (beq (bs "10") (bs "10")) with true by reflexivity.
+    rewrite x_parse_color_wf by exact Hf. reflexivity.
+  - rewrite app_nil_r. rewrite findall_print by auto. rewrite Ht.
+    cbn [fold_colors]. replace (beq (bs "11") (bs "10")) with false by reflexivity.
+    replace (beq (bs "11") (bs "11")) with true by reflexivity.
+    rewrite x_parse_color_wf by exact Hb. reflexivity.
+  - rewrite Ht. reflexivity.
+Qed.
+
+Lemma name_version_of_profile cfg p tl : enabled cfg = true -> wf_reply wf_xtv (p_xtv p) = true ->
+  tl = [] \/ tl = CSI ->
+  name_version_of_response cfg (Some (concat (answer p QXtv) ++ tl)) = exp_name_version cfg p.
+Proof.
+  intros Hen Hx Htl. rewrite nv_uniform. unfold exp_name_version. rewrite Hen.
+  unfold answer, opt_unit.
+  destruct (p_xtv p) as [[x|raw]|]; try discriminate; cbn [wf_reply wf_of print concat app] in *.
+  - rewrite app_nil_r. rewrite parse_xtversion_print; auto.
+    destruct Htl as [-> | ->]; [now left | right; now exists []].
+  - destruct Htl as [-> | ->]; reflexivity.
+Qed.
+
+(** ** end to end *)
+
+Section EndToEnd.
+Variable cost : nat -> Z.
+Variable c : Z.
+Hypothesis cost_bounded : forall i, 0 <= cost i <= c.
+Variable cfg : config.
+Hypothesis Hen : enabled cfg = true.
+Hypothesis Hto : 0 < qtimeout cfg.
+Variable p : profile.
+Hypothesis Hwf : wf_profile p = true.
+Variable delays : list byte -> list Z.
+Let term := profile_terminal p delays.
+
+Definition FGBG_request : list byte := TEXT_FG_q ++ TEXT_BG_q ++ DA1_q.
+Definition XTV_request : list byte := XTVERSION_q ++ DA1_q.
+
+Lemma units_fgbg : units p FGBG_request = (answer p QFg ++ answer p QBg) ++ answer p QDa1.
+Proof.
+  unfold units. replace (tokenize FGBG_request 0) with [QFg; QBg; QDa1] by (vm_compute; reflexivity).
+  cbn [flat_map]. now rewrite app_nil_r, app_assoc.
+Qed.
+
+Lemma units_xtv : units p XTV_request = answer p QXtv ++ answer p QDa1.
+Proof.
+  unfold units. replace (tokenize XTV_request 0) with [QXtv; QDa1] by (vm_compute; reflexivity).
+  cbn [flat_map]. now rewrite app_nil_r.
+Qed.
+
+Lemma transparent_answers_rgb :
+  Forall transparent (answer p QFg ++ answer p QBg).
+Proof.
+  destruct (wf_profile_parts p Hwf) as (_ & Hf & Hb & _).
+  unfold answer, opt_unit. apply Forall_app. split.
+  - destruct (p_fg p) as [[fg|raw]|]; try discriminate; constructor; [|constructor].
+    now apply transparent_print_rgb.
+  - destruct (p_bg p) as [[bg|raw]|]; try discriminate; constructor; [|constructor].
+    now apply transparent_print_rgb.
+Qed.
+
+Lemma transparent_answers_xtv : Forall transparent (answer p QXtv).
+Proof.
+  destruct (wf_profile_parts p Hwf) as (Hx & _).
+  unfold answer, opt_unit.
+  destruct (p_xtv p) as [[x|raw]|]; try discriminate; constructor; [|constructor].
+  now apply transparent_print_xtv.
+Qed.
+
+(** get_fg_bg_colors(): exactly the replied colours, each component scaled by its own width;
+    nothing left unread; never later than one timeout *)
+Lemma fg_bg_reports_profile st D :
+  pend st = [] -> timely c cfg term FGBG_request D ->
+  exists st',
+    get_fg_bg cost cfg term st = (Some (exp_fg_bg cfg p), st') /\
+    pend st' = [] /\ written st' = written st ++ [FGBG_request] /\
+    now st <= now st' <= now st + qtimeout cfg + c * (Z.of_nat (length (stream (term FGBG_request))) + 4).
+Proof.
+  intros Hp Ht.
+  destruct (wf_profile_parts p Hwf) as (_ & Hf & Hb & _ & _ & _ & Hd).
+  destruct (two_phase_units cost c cost_bounded cfg Hen Hto term FGBG_request
+              (answer p QFg ++ answer p QBg) (da1_tail p) st D) as (st' & E & R); auto.
+  { unfold term, profile_terminal. rewrite zip_units_snd, units_fgbg, answer_da1; auto. }
+  { apply transparent_answers_rgb. }
+  exists st'. split; [|exact R]. unfold get_fg_bg. fold FGBG_request. rewrite E.
+  f_equal. fold (csi_tail p). rewrite colors_of_profile; auto using csi_tail_cases.
+  unfold exp_fg_bg. now rewrite Hen.
+Qed.
+
+(** get_terminal_name_version(): the replied name (lower-cased) and version, the
+    environment's when XTVERSION is not answered; nothing left unread *)
+Lemma name_version_reports_profile st D :
+  pend st = [] -> timely c cfg term XTV_request D ->
+  exists st',
+    get_name_version cost cfg term st = (exp_name_version cfg p, st') /\
+    pend st' = [] /\ written st' = written st ++ [XTV_request] /\
+    now st <= now st' <= now st + qtimeout cfg + c * (Z.of_nat (length (stream (term XTV_request))) + 4).
+Proof.
+  intros Hp Ht.
+  destruct (wf_profile_parts p Hwf) as (Hx & _ & _ & _ & _ & _ & Hd).
+  destruct (two_phase_units cost c cost_bounded cfg Hen Hto term XTV_request
+              (answer p QXtv) (da1_tail p) st D) as (st' & E & R); auto.
+  { unfold term, profile_terminal. rewrite zip_units_snd, units_xtv, answer_da1; auto. }
+  { apply transparent_answers_xtv. }
+  exists st'. split; [|exact R]. unfold get_name_version. fold XTV_request. rewrite E.
+  f_equal. fold (csi_tail p). apply name_version_of_profile; auto using csi_tail_cases.
+Qed.
+
+End EndToEnd.
+
+(** ** the single-phase reader of get_cell_size: stops at the "c" that ends the DA1 reply *)
+
+Definition not_c (b : byte) : bool := negb (b =? 99).
+
+Lemma noc_prefix s : forallb not_c s = true -> forall q, prefix q s -> more_not_c q = true.
+Proof.
+  intros H q [r ->]. unfold more_not_c. destruct (ends_with [99] q) eqn:E; [|reflexivity].
+  apply ends_with_iff in E as [p' ->]. rewrite <- app_assoc in H. rewrite forallb_app in H.
+  apply andb_true_iff in H as [_ H]. cbn in H. discriminate.
+Qed.
+
+Lemma strict_prefix_snoc1 {A} (q y : list A) (a : A) : strict_prefix q (y ++ [a]) -> prefix q y.
+Proof.
+  intros [r [Hr E]]. destruct (exists_last Hr) as (r' & z & ->).
+  exists r'. rewrite app_assoc in E. apply app_inj_tail in E as [E _]. exact E.
+Qed.
+
+Lemma digit_not_c b : is_digit b = true -> not_c b = true.
+Proof. unfold not_c. destruct (Z.eqb_spec b 99) as [->|]; [vm_compute; discriminate|reflexivity]. Qed.
+
+Lemma noc_print_winops n hw : n <> 99 -> wf_winops hw = true -> forallb not_c (print_winops n hw) = true.
+Proof.
+  intros Hn H. unfold wf_winops in H. apply andb_true_iff in H as [H1 H2].
+  apply wf_digits_facts in H1 as [_ H1]. apply wf_digits_facts in H2 as [_ H2].
+  unfold print_winops. rewrite !forallb_app. apply Z.eqb_neq in Hn.
+  cbn. unfold not_c at 1. rewrite Hn. cbn.
+  rewrite (forallb_impl _ _ _ digit_not_c H1), (forallb_impl _ _ _ digit_not_c H2). reflexivity.
+Qed.
+
+(** the DA1 reply is [da1_body ps ++ "c"] and its body has no "c" *)
+Definition da1_body (ps : list byte) : list byte := CSI ++ [63] ++ ps.
+Lemma print_da1_body ps : print_da1 ps = da1_body ps ++ [99].
+Proof. unfold print_da1, da1_body. now rewrite <- !app_assoc. Qed.
+Lemma noc_da1_body ps : wf_da1 ps = true -> forallb not_c (da1_body ps) = true.
+Proof.
+  intros H. unfold da1_body. rewrite !forallb_app. cbn. unfold wf_da1 in H.
+  eapply forallb_impl; [|exact H]. intros b Hb. unfold not_c.
+  destruct (Z.eqb_spec b 99) as [->|]; [vm_compute in Hb; discriminate|reflexivity].
+Qed.
+
+(** what cell_of_response makes of the replies *)
+Definition CELL_request : list byte := CELL_SIZE_PX_q ++ TEXT_AREA_SIZE_PX_q ++ DA1_q.
+
+Lemma ioctl_got_spec cfg :
+  ioctl_got cfg = ioctl_ok cfg && negb (ws_xpix cfg =? 0) && negb (ws_ypix cfg =? 0).
+Proof.
+  unfold ioctl_got, ioctl_area, has_zero. destruct (ioctl_ok cfg); cbn [andb fst snd]; [|reflexivity].
+  now rewrite negb_orb.
+Qed.
+
+Lemma cell_of_ioctl cfg p c0 resp :
+  cache_hit cfg c0 = false -> ioctl_got cfg = true -> 0 < ws_cols cfg -> 0 < ws_rows cfg ->
+  fst (cell_of_response cfg c0 resp) = exp_cell cfg p.
+Proof.
+  intros Hmiss Hgot Hc Hr. destruct c0 as [[[a0 a1] cw] ch]. unfold cell_of_response. rewrite Hmiss, Hgot.
+  unfold exp_cell. rewrite <- ioctl_got_spec, Hgot.
+  replace (ws_cols cfg =? 0) with false by (symmetry; apply Z.eqb_neq; lia).
+  replace (ws_rows cfg =? 0) with false by (symmetry; apply Z.eqb_neq; lia).
+  cbn [orb fst snd]. unfold ioctl_area.
+  assert (ioctl_ok cfg = true) as -> by (unfold ioctl_got in Hgot; now apply andb_true_iff in Hgot as [? _]).
+  destruct (swap cfg); reflexivity.
+Qed.
+
+Lemma parse_winops_other n m hw rest : n <> m ->
+  parse_xtwinops n (print_winops m hw ++ rest) = None.
+Proof.
+  intros H. unfold parse_xtwinops, print_winops, CSI. cbn [app strip].
+  cbn [Z.eqb Pos.eqb]. apply Z.eqb_neq in H. now rewrite H.
+Qed.
+
+Lemma parse_winops_da1 n ps rest : n <> 63 -> parse_xtwinops n (print_da1 ps ++ rest) = None.
+Proof.
+  intros H. unfold parse_xtwinops, print_da1, CSI. cbn [app strip].
+  cbn [Z.eqb Pos.eqb]. apply Z.eqb_neq in H. now rewrite H.
+Qed.
+
+Lemma cell_of_replies cfg p c0 :
+  enabled cfg = true ->
+  wf_reply wf_winops (p_cell p) = true -> wf_reply wf_winops (p_area p) = true ->
+  wf_reply wf_da1 (p_da1 p) = true ->
+  cache_hit cfg c0 = false -> ioctl_got cfg = false -> 0 < ws_cols cfg -> 0 < ws_rows cfg ->
+  fst (cell_of_response cfg c0 (Some (concat ((answer p QCell ++ answer p QArea) ++ answer p QDa1))))
+  = exp_cell cfg p.
+Proof.
+  intros Hen Hcell Harea Hda1 Hmiss Hgot Hc Hr. destruct c0 as [[[a0 a1] cw] ch].
+  unfold cell_of_response. rewrite Hmiss, Hgot.
+  unfold exp_cell. rewrite <- ioctl_got_spec, Hgot, Hen. cbn [negb].
+  replace (ws_cols cfg =? 0) with false by (symmetry; apply Z.eqb_neq; lia).
+  replace (ws_rows cfg =? 0) with false by (symmetry; apply Z.eqb_neq; lia).
+  cbn [orb]. unfold answer, opt_unit.
+  destruct (p_cell p) as [[[h w]|raw]|]; try discriminate; cbn [wf_reply wf_of print app concat] in *.
+  - (* the cell-size reply *)
+    set (rest := concat _).
+    destruct (print_winops 54 (h, w) ++ rest) as [|z l] eqn:E; [discriminate E|]. rewrite <- E.
+    rewrite parse_xtwinops_print by exact Hcell. cbn [fst snd]. reflexivity.
+  - destruct (p_area p) as [[[h w]|raw]|]; try discriminate; cbn [wf_reply wf_of print app concat] in *.
+    + (* only the text-area reply *)
+      set (rest := concat _).
+      destruct (print_winops 52 (h, w) ++ rest) as [|z l] eqn:E; [discriminate E|]. rewrite <- E.
+      rewrite parse_winops_other by discriminate.
+      rewrite parse_xtwinops_print by exact Harea. cbn [fst snd].
+      destruct (termux cfg), (swap cfg); reflexivity.
+    + (* neither *)
+      destruct (p_da1 p) as [[ps|raw]|]; try discriminate; cbn [print concat app]; [|reflexivity].
+      destruct (print_da1 ps ++ []) as [|z l] eqn:E; [discriminate E|]. rewrite <- E.
+      rewrite !parse_winops_da1 by discriminate. reflexivity.
+Qed.
+
+Section CellEnd.
+Variable cost : nat -> Z.
+Variable c : Z.
+Hypothesis cost_bounded : forall i, 0 <= cost i <= c.
+Variable cfg : config.
+Hypothesis Hen : enabled cfg = true.
+Hypothesis Hto : 0 < qtimeout cfg.
+Variable p : profile.
+Hypothesis Hwf : wf_profile p = true.
+Variable delays : list byte -> list Z.
+Let term := profile_terminal p delays.
+
+Lemma units_cell : units p CELL_request = (answer p QCell ++ answer p QArea) ++ answer p QDa1.
+Proof.
+  unfold units. replace (tokenize CELL_request 0) with [QCell; QArea; QDa1] by (vm_compute; reflexivity).
+  cbn [flat_map]. now rewrite app_nil_r, app_assoc.
+Qed.
+
+Lemma noc_winops_answers : forallb not_c (concat (answer p QCell ++ answer p QArea)) = true.
+Proof.
+  destruct (wf_profile_parts p Hwf) as (_ & _ & _ & Hc & Ha & _).
+  rewrite concat_app, forallb_app. unfold answer, opt_unit. apply andb_true_iff. split.
+  - destruct (p_cell p) as [[hw|raw]|]; try discriminate; cbn [print concat]; [|reflexivity].
+    rewrite app_nil_r. apply noc_print_winops; [discriminate|exact Hc].
+  - destruct (p_area p) as [[hw|raw]|]; try discriminate; cbn [print concat]; [|reflexivity].
+    rewrite app_nil_r. apply noc_print_winops; [discriminate|exact Ha].
+Qed.
+
+Lemma cell_stream_readable :
+  forall q, strict_prefix q (concat ((answer p QCell ++ answer p QArea) ++ answer p QDa1)) -> more_not_c q = true.
+Proof.
+  destruct (wf_profile_parts p Hwf) as (_ & _ & _ & _ & _ & _ & Hd).
+  pose proof noc_winops_answers as HX. rewrite concat_app.
+  unfold answer at 3. unfold opt_unit.
+  destruct (p_da1 p) as [[ps|raw]|]; try discriminate; cbn [print concat wf_reply] in *.
+  - rewrite app_nil_r, print_da1_body, app_assoc. intros q Hq. apply strict_prefix_snoc1 in Hq.
+    revert q Hq. apply noc_prefix. rewrite forallb_app, HX. now apply noc_da1_body.
+  - rewrite app_nil_r. intros q [r [_ Hq]]. apply (noc_prefix _ HX). now exists r.
+Qed.
+
+(** get_cell_size() on a cache miss in a window of at least 1x1 cells: the ioctl's pixel size
+    when it has no zero (no query at all), else the replied cell size, else the replied
+    text-area size divided by the window size in cells (swapped first under the workaround;
+    height doubled on Termux); nothing left unread; never later than one timeout *)
+Lemma cell_size_reports_profile c0 st D :
+  cache_hit cfg c0 = false -> 0 < ws_cols cfg -> 0 < ws_rows cfg ->
+  pend st = [] -> timely c cfg term CELL_request D ->
+  exists c1 st',
+    get_cell_size cost cfg term c0 st = (exp_cell cfg p, c1, st') /\ pend st' = [] /\
+    now st <= now st' <= now st + qtimeout cfg + 2 * c.
+Proof.
+  intros Hmiss Hc Hr Hp Ht. pose proof (c_nonneg cost c cost_bounded) as Hc0.
+  destruct (wf_profile_parts p Hwf) as (_ & _ & _ & Hcell & Harea & _ & Hd).
+  unfold get_cell_size, cell_query_needed. rewrite Hmiss. cbn [negb andb].
+  destruct (ioctl_got cfg) eqn:Hg; cbn [negb].
+  - pose proof (cell_of_ioctl cfg p c0 None Hmiss Hg Hc Hr) as E.
+    destruct (cell_of_response cfg c0 None) as [r c1]. cbn [fst] in E. subst r.
+    exists c1, st. split; [reflexivity|]. split; [exact Hp|lia].
+  - fold CELL_request.
+    assert (Hs : stream (term CELL_request) = concat ((answer p QCell ++ answer p QArea) ++ answer p QDa1)).
+    { unfold stream, term, profile_terminal. now rewrite zip_units_snd, units_cell. }
+    destruct (query_reads_all cost c cost_bounded cfg term Hen more_not_c CELL_request st D Hp Ht)
+      as (st' & E & Hp' & _ & Hn).
+    { rewrite Hs. apply cell_stream_readable. }
+    rewrite E, Hs.
+    pose proof (cell_of_replies cfg p c0 Hen Hcell Harea Hd Hmiss Hg Hc Hr) as E2.
+    destruct (cell_of_response cfg c0 _) as [r c1]. cbn [fst] in E2. subst r.
+    exists c1, st'. split; [reflexivity|]. split; [exact Hp'|exact Hn].
+Qed.
+
+End CellEnd.
+
+(** ** the kitty support query: stops at the "c" that ends the DA1 reply *)
+
+Lemma contains_prefix_false q : forall r, contains CSI (q ++ r) = false -> contains CSI q = false.
+Proof.
+  induction q as [|x q IH]; intros r H; [reflexivity|].
+  cbn [app] in H. rewrite contains_cons in *. apply orb_false_iff in H as [H1 H2].
+  rewrite (IH r H2), orb_false_r. destruct (x =? 27); [|reflexivity]. cbn [andb] in *.
+  destruct q; [reflexivity|exact H1].
+Qed.
+
+Lemma prefix_app_cases {A} (a b : list A) : forall q, prefix q (a ++ b) ->
+  prefix q a \/ exists t, t <> [] /\ q = a ++ t /\ prefix t b.
+Proof.
+  induction a as [|x a IH]; intros q [r E].
+  - destruct q as [|y q]; [left; now exists []|].
+    right. exists (y :: q). split; [discriminate|]. split; [reflexivity|]. now exists r.
+  - destruct q as [|y q]; [left; now exists (x :: a)|].
+    cbn in E. inversion E; subst y. destruct (IH q) as [[r' Hr]|(t & Ht & -> & Hp)]; [now exists r| |].
+    + left. exists r'. cbn. now rewrite Hr.
+    + right. exists t. auto.
+Qed.
+
+Lemma transparent_print_kitty k : wf_kitty k = true -> transparent (print_kitty k).
+Proof.
+  unfold wf_kitty. intros H. apply andb_true_iff in H as [H Hm]. apply andb_true_iff in H as [H _].
+  apply andb_true_iff in H as [Hid Hnum]. apply wf_digits_facts in Hid as [_ Hid].
+  unfold print_kitty. repeat apply transparent_app.
+  - apply transparent_esc; discriminate.
+  - now apply transparent_noesc.
+  - apply transparent_noesc. eapply forallb_impl; [|exact Hid]. apply digit_not_esc.
+  - destruct (k_num k) as [n|]; [|apply transparent_nil].
+    apply wf_digits_facts in Hnum as [_ Hnum]. apply transparent_app; [now apply transparent_noesc|].
+    apply transparent_noesc. eapply forallb_impl; [|exact Hnum]. apply digit_not_esc.
+  - now apply transparent_noesc.
+  - apply transparent_noesc. eapply forallb_impl; [|exact Hm].
+    intros b Hb. apply andb_true_iff in Hb as [Hb _]. exact Hb.
+  - apply transparent_esc; discriminate.
+Qed.
+
+Definition KITTY_request : list byte := KITTY_SUPPORT_q ++ DA1_q.
+
+Lemma kitty_version_rule_spec name ver :
+  kitty_version_rule name ver
+  = (name_is name "kitty" && version_ge ver [0; 20; 0]) || name_is name "konsole".
+Proof.
+  unfold kitty_version_rule, version_ge. destruct (name_is name "kitty") eqn:Ek.
+  - apply name_is_eq in Ek. subst name. cbn [andb]. replace (name_is (Some (bs "kitty")) "konsole") with false by reflexivity.
+    rewrite orb_false_r. destruct ver as [[|b v]|]; reflexivity.
+  - reflexivity.
+Qed.
+
+Lemma kitty_supported_spec name ver resp g :
+  kitty_reply_ok resp = g ->
+  kitty_supported name ver resp
+  = g && ((name_is name "kitty" && version_ge ver [0; 20; 0]) || name_is name "konsole").
+Proof.
+  intros <-. unfold kitty_supported. rewrite kitty_version_rule_spec.
+  destruct (name_is name "iterm2") eqn:Ei; [|reflexivity].
+  apply name_is_eq in Ei. subst name.
+  replace (name_is (Some (bs "iterm2")) "kitty") with false by reflexivity.
+  replace (name_is (Some (bs "iterm2")) "konsole") with false by reflexivity.
+  now rewrite andb_false_r.
+Qed.
+
+Lemma kitty_reply_ok_profile cfg p : enabled cfg = true ->
+  wf_reply wf_kitty (p_kitty p) = true -> wf_reply wf_da1 (p_da1 p) = true ->
+  kitty_reply_ok (Some (concat (answer p QKitty ++ answer p QDa1))) = graphics_ok_of cfg p.
+Proof.
+  intros Hen Hk Hd. unfold graphics_ok_of. rewrite Hen. cbn [andb]. unfold answer, opt_unit.
+  destruct (p_kitty p) as [[k|raw]|]; try discriminate; cbn [wf_reply wf_of print app concat] in *.
+  - unfold kitty_reply_ok. set (rest := concat _).
+    destruct (print_kitty k ++ rest) as [|z l] eqn:E; [discriminate E|]. rewrite <- E.
+    now rewrite parse_kitty_print.
+  - destruct (p_da1 p) as [[ps|raw]|]; try discriminate; reflexivity.
+Qed.
+
+Lemma iterm2_supported_spec name ver :
+  (name_is name "konsole" && match ver with None => true | Some _ => false end) = false ->
+  iterm2_supported name ver
+  = Some (name_is name "iterm2" || name_is name "wezterm" || (name_is name "konsole" && version_ge ver [22; 4; 0])).
+Proof.
+  intros H. unfold iterm2_supported, version_ge.
+  destruct (name_is name "konsole") eqn:Ek.
+  - apply name_is_eq in Ek. subst name.
+    replace (name_is (Some (bs "konsole")) "iterm2") with false by reflexivity.
+    replace (name_is (Some (bs "konsole")) "wezterm") with false by reflexivity.
+    replace (name_is (Some (bs "konsole")) "konsole") with true by reflexivity.
+    cbn [orb negb andb] in *. destruct ver as [v|]; [|discriminate].
+    destruct (version_tuple v); reflexivity.
+  - rewrite orb_false_r. cbn [andb negb]. rewrite orb_false_r.
+    destruct (name_is name "iterm2" || name_is name "wezterm"); reflexivity.
+Qed.
+
+Section StyleEnd.
+Variable cost : nat -> Z.
+Variable c : Z.
+Hypothesis cost_bounded : forall i, 0 <= cost i <= c.
+Variable cfg : config.
+Hypothesis Hen : enabled cfg = true.
+Hypothesis Hto : 0 < qtimeout cfg.
+Variable p : profile.
+Hypothesis Hwf : wf_profile p = true.
+Variable delays : list byte -> list Z.
+Let term := profile_terminal p delays.
+
+Lemma units_kitty : units p KITTY_request = answer p QKitty ++ answer p QDa1.
+Proof.
+  unfold units. replace (tokenize KITTY_request 0) with [QKitty; QDa1] by (vm_compute; reflexivity).
+  cbn [flat_map]. now rewrite app_nil_r.
+Qed.
+
+Lemma transparent_kitty_answer : transparent (concat (answer p QKitty)).
+Proof.
+  destruct (wf_profile_parts p Hwf) as (_ & _ & _ & _ & _ & Hk & _).
+  unfold answer, opt_unit. destruct (p_kitty p) as [[k|raw]|]; try discriminate; cbn [print concat].
+  - rewrite app_nil_r. now apply transparent_print_kitty.
+  - apply transparent_nil.
+Qed.
+
+Lemma kitty_stream_readable :
+  forall q, strict_prefix q (concat (answer p QKitty ++ answer p QDa1)) -> more_kitty q = true.
+Proof.
+  destruct (wf_profile_parts p Hwf) as (_ & _ & _ & _ & _ & _ & Hd).
+  pose proof transparent_kitty_answer as HK. rewrite concat_app.
+  assert (Hno : forall q, prefix q (concat (answer p QKitty)) -> more_kitty q = true).
+  { intros q [r Hq]. unfold more_kitty. rewrite (contains_prefix_false q r); [now rewrite andb_false_r|].
+    rewrite <- Hq. now apply transparent_nocsi. }
+  unfold answer at 2. unfold opt_unit.
+  destruct (p_da1 p) as [[ps|raw]|]; try discriminate; cbn [print concat wf_reply] in *.
+  - rewrite app_nil_r, print_da1_body, app_assoc. intros q Hq. apply strict_prefix_snoc1 in Hq.
+    apply prefix_app_cases in Hq as [Hq|(t & Ht & -> & [r Hr])]; [now apply Hno|].
+    unfold more_kitty. replace (ends_with [99] (concat (answer p QKitty) ++ t)) with false; [reflexivity|].
+    symmetry. apply not_true_is_false. intros E. apply ends_with_iff in E as [p' E].
+    destruct (exists_last Ht) as (t' & z & ->). rewrite app_assoc in E. apply app_inj_tail in E as [_ ->].
+    pose proof (noc_da1_body ps Hd) as Hc. rewrite Hr, <- app_assoc, !forallb_app in Hc.
+    apply andb_true_iff in Hc as [_ Hc]. apply andb_true_iff in Hc as [Hc _]. cbn in Hc. discriminate.
+  - rewrite app_nil_r. intros q [r [_ Hq]]. apply Hno. now exists r.
+Qed.
+
+(** KittyImage.is_supported() from a fresh state: the documented rule evaluated on what the
+    terminal said (XTVERSION reply or environment; graphics reply "OK" for id 31), whatever
+    the error message of a refusing terminal contains; nothing left unread; at most one
+    timeout per query *)
+Lemma kitty_reports_profile st D1 D2 :
+  pend st = [] -> timely c cfg term XTV_request D1 -> timely c cfg term KITTY_request D2 ->
+  exists st',
+    kitty_is_supported cost cfg term (st, None)
+    = (exp_kitty cfg p, (st', Some (exp_name_version cfg p))) /\
+    pend st' = [] /\
+    now st <= now st' <= now st + 2 * qtimeout cfg
+                        + c * (Z.of_nat (length (stream (term XTV_request))) + 6).
+Proof.
+  intros Hp H1 H2. pose proof (c_nonneg cost c cost_bounded) as Hc0.
+  destruct (wf_profile_parts p Hwf) as (_ & _ & _ & _ & _ & Hk & Hd).
+  destruct (name_version_reports_profile cost c cost_bounded cfg Hen Hto p Hwf delays st D1 Hp H1)
+    as (st1 & E1 & Hp1 & _ & Hn1). fold term in E1, Hn1.
+  unfold kitty_is_supported, cached_name_version. cbn [snd fst]. fold term. rewrite E1. cbn [fst snd].
+  unfold exp_kitty. destruct (exp_name_version cfg p) as [name ver] eqn:Env. cbn [fst snd].
+  destruct (name_is name "iterm2") eqn:Ei.
+  - exists st1. split; [|split; [exact Hp1|lia]]. f_equal.
+    apply name_is_eq in Ei. subst name.
+    replace (name_is (Some (bs "iterm2")) "kitty") with false by reflexivity.
+    replace (name_is (Some (bs "iterm2")) "konsole") with false by reflexivity.
+    now rewrite andb_false_r.
+  - fold KITTY_request.
+    assert (Hs : stream (term KITTY_request) = concat (answer p QKitty ++ answer p QDa1)).
+    { unfold stream, term, profile_terminal. now rewrite zip_units_snd, units_kitty. }
+    destruct (query_reads_all cost c cost_bounded cfg term Hen more_kitty KITTY_request st1 D2 Hp1 H2)
+      as (st2 & E2 & Hp2 & _ & Hn2).
+    { rewrite Hs. apply kitty_stream_readable. }
+    rewrite E2. exists st2. split; [|split; [exact Hp2|lia]]. f_equal.
+    rewrite Hs. apply kitty_supported_spec. now apply kitty_reply_ok_profile.
+Qed.
+
+(** auto_image_class() from a fresh state: the most capable supported style — kitty, then
+    iterm2, then block — by the documented rules.  (Excluded: the name "konsole" coming from
+    TERM_PROGRAM with no TERM_PROGRAM_VERSION, where ITerm2Image.is_supported() raises.) *)
+Lemma auto_reports_profile st D1 D2 :
+  (let (n, v) := exp_name_version cfg p in
+   name_is n "konsole" && match v with None => true | Some _ => false end) = false ->
+  pend st = [] -> timely c cfg term XTV_request D1 -> timely c cfg term KITTY_request D2 ->
+  exists st',
+    auto_image_class cost cfg term (st, None)
+    = (Some (exp_auto cfg p), (st', Some (exp_name_version cfg p))) /\
+    pend st' = [] /\
+    now st <= now st' <= now st + 2 * qtimeout cfg
+                        + c * (Z.of_nat (length (stream (term XTV_request))) + 6).
+Proof.
+  intros Hk Hp H1 H2.
+  destruct (kitty_reports_profile st D1 D2 Hp H1 H2) as (st' & E & R).
+  unfold auto_image_class. fold term. rewrite E. exists st'. split; [|exact R].
+  unfold exp_auto. destruct (exp_kitty cfg p); [reflexivity|].
+  unfold iterm2_is_supported, cached_name_version. cbn [snd fst].
+  unfold exp_iterm2. destruct (exp_name_version cfg p) as [name ver]. cbn [fst snd].
+  rewrite iterm2_supported_spec by exact Hk.
+  destruct (name_is name "iterm2" || name_is name "wezterm" || (name_is name "konsole" && version_ge ver [22; 4; 0]));
+    reflexivity.
+Qed.
+
+End StyleEnd.
+
+(** ** non-vacuity: a concrete terminal (kitty 0.26.5 answering every query, each reply a
+    unit, the j-th one j ticks after the request) satisfies the hypotheses, and the six
+    functions compute the specified answers on it *)
+Definition ex_profile : profile :=
+  {| p_xtv := Some (Wf {| x_name := bs "kitty"; x_open := true; x_ver := bs "0.26.5"; x_close := true; x_bel := false |});
+     p_fg := Some (Wf {| c_r := bs "f"; c_g := bs "ff"; c_b := bs "fff"; c_bel := true |});
+     p_bg := Some (Wf {| c_r := bs "0"; c_g := bs "80"; c_b := bs "ABCD"; c_bel := false |});
+     p_cell := None;
+     p_area := Some (Wf (bs "480", bs "800"));
+     p_kitty := Some (Wf {| k_id := bs "31"; k_num := None; k_msg := bs "OK" |});
+     p_da1 := Some (Wf (bs "62;")) |}.
+Definition ex_cfg : config :=
+  {| enabled := true; qtimeout := 1000; swap := false; termux := false; env_name := None; env_version := None;
+     ws_cols := 80; ws_rows := 24; ws_xpix := 0; ws_ypix := 0; ioctl_ok := true |}.
+Definition ex_delays : list byte -> list Z := fun _ => [0; 1; 2; 3].
+Definition ex_tty : tty := {| now := 0; pend := []; tick := 0; written := [] |}.
+
+Example ex_hypotheses :
+  wf_profile ex_profile = true /\
+  timely 1 ex_cfg (profile_terminal ex_profile ex_delays) FGBG_request 3 /\
+  timely 1 ex_cfg (profile_terminal ex_profile ex_delays) XTV_request 3 /\
+  timely 1 ex_cfg (profile_terminal ex_profile ex_delays) CELL_request 3 /\
+  timely 1 ex_cfg (profile_terminal ex_profile ex_delays) KITTY_request 3 /\
+  cache_hit ex_cfg (0, 0, 0, 0) = false.
+Proof.
+  split; [reflexivity|].
+  repeat split; try (vm_compute; intros; discriminate); try reflexivity;
+    try (repeat constructor; vm_compute; intros; discriminate).
+Qed.
+
+Example ex_answers :
+  fst (get_fg_bg (fun _ => 1) ex_cfg (profile_terminal ex_profile ex_delays) ex_tty)
+    = Some (Some (255, 255, 255), Some (0, 128, 171)) /\
+  fst (get_name_version (fun _ => 1) ex_cfg (profile_terminal ex_profile ex_delays) ex_tty)
+    = (Some (bs "kitty"), Some (bs "0.26.5")) /\
+  fst (fst (get_cell_size (fun _ => 1) ex_cfg (profile_terminal ex_profile ex_delays) (0, 0, 0, 0) ex_tty))
+    = CsSize 10 20 /\
+  fst (auto_image_class (fun _ => 1) ex_cfg (profile_terminal ex_profile ex_delays) (ex_tty, None))
+    = Some Kitty.
+Proof. repeat split; vm_compute; reflexivity. Qed.
